@@ -39,6 +39,15 @@ theorem C06_orders_agree (o₁ o₂ : Order) (h₁ : normalising o₁) (h₂ : n
   obtain ⟨s2, hn2⟩ := C06_normalising_result o₂ h₂ f₂ t n₂ c₂ r₂
   exact normal_unique s1 s2 hn1 hn2
 
+/-- C06, the same for LIMITED runs that stopped before their limit (`c < L`): such a run has terminated too, so two
+normalising orders with any limits, each stopping early or unlimited, leave the identical term -/
+theorem C06_orders_agree_limited (o₁ o₂ : Order) (h₁ : normalising o₁) (h₂ : normalising o₂) (L₁ L₂ f₁ f₂ : Nat)
+    (t n₁ n₂ : Term) (c₁ c₂ : Nat)
+    (r₁ : reduce o₁ L₁ f₁ t = some (n₁, c₁)) (r₂ : reduce o₂ L₂ f₂ t = some (n₂, c₂))
+    (e₁ : L₁ = 0 ∨ c₁ < L₁) (e₂ : L₂ = 0 ∨ c₂ < L₂) : n₁ = n₂ :=
+  normal_unique (RL.reduce_star r₁) (RL.reduce_star r₂)
+    (RL.reduce_normal (normalising_nf h₁) r₁ e₁) (RL.reduce_normal (normalising_nf h₂) r₂ e₂)
+
 -- (λx. x ((λy.y) x)) ((λz.z) w): NOR needs 4 contractions (the argument is duplicated), APP needs 3
 example :
     reduce .NOR 0 12 (app (abs (app (var 1) (app (abs (var 1)) (var 1)))) (app (abs (var 1)) (var 5)))
